@@ -13,10 +13,15 @@ var PureSpecDir = func() string { return filepath.Join(VerifRoot(), "spec", "pur
 
 // validatePure runs a trace spec of spec/pure over events (no Setup structure; shards cut anywhere).
 func validatePure(run *Run, module string, events []any, shards int) *TraceSummary {
+	return validatePureCut(run, module, events, shards, func(int) bool { return true })
+}
+
+// validatePureCut: shards may only start at events for which mayCut is true.
+func validatePureCut(run *Run, module string, events []any, shards int, mayCut func(int) bool) *TraceSummary {
 	if len(events) == 0 {
 		run.Inconclusive("driver produced no events")
 	}
-	sum, err := ValidateTrace([]string{PureSpecDir()}, module, events, shards, func(int) bool { return true }, 20*time.Minute)
+	sum, err := ValidateTrace([]string{PureSpecDir()}, module, events, shards, mayCut, 20*time.Minute)
 	if err != nil {
 		run.Inconclusive("%s validation failed: %v", module, err)
 	}
